@@ -24,6 +24,7 @@ import (
 	"github.com/cnotch/ipchub/provider/security"
 	"github.com/cnotch/ipchub/stats"
 	"github.com/cnotch/ipchub/utils"
+	"github.com/cnotch/ipchub/utils/verifhook"
 	"github.com/cnotch/xlog"
 	"github.com/pixelbender/go-sdp/sdp"
 )
@@ -148,6 +149,8 @@ func (s *Session) Close() error {
 }
 
 func (s *Session) process() {
+	verifhook.Point("rtsp.session.enter", s)
+	defer verifhook.Point("rtsp.session.exit", s)
 	defer func() {
 		if r := recover(); r != nil {
 			s.logger.Errorf("session panic; %v \n %s", r, debug.Stack())
